@@ -26,6 +26,9 @@
       product `(N,K,1) @ (N,1,K)` is a sum of one term), MMD one-vs-one gradient (`pi.T @ pi` is a sum of one term;
       `Lambda -= np.diag(np.diag(Lambda))` is `x - x` on the diagonal where the model writes 0), MMD one-vs-all gradient
       (`(np.eye(N) - 1/N) @ K @ (alpha - 1)` vs the model's `K(alpha-1)` minus its column means: distributivity).
+  The proofs do not depend on which temporaries the source uses: they are `simp` over the unfolded definition, or (the
+  two MMD gradients) unfold every `let` and name the NumPy EXPRESSIONS themselves (`name_expr`, Lemmas/Np2.lean), the
+  diagonal of `Lambda` being removed either by `Lambda -= np.diag(np.diag(Lambda))` or by `np.fill_diagonal(Lambda, 0)`.
   The theorems of Props/C01.lean, C02*.lean, C13*.lean, stated about Model/Gemini.lean, therefore speak about the
   current source.  Not covered here: WassersteinGEMINI (loops and `ot.emd2`): differential check only.
 -/
@@ -276,55 +279,63 @@ theorem tv_ovo_grad_snd_eq (ε : ℝ) (P : Fin n → Fin K → ℝ) (A : Arr ℝ
 theorem mmd_ova_grad_snd_eq (hn : 0 < n) (ε : ℝ) (P : Fin n → Fin K → ℝ) (κ : Fin n → Fin n → ℝ) :
     Eqv (Gen.Geminis.mmd_ova_grad ε (ofFn P) (ofFn κ)).2 (ofFn (mmdGrad ε false P κ)) := by
   unfold Gen.Geminis.mmd_ova_grad
-  extract_lets clip_mask y1 N nk pi alpha gamma omega a b c delta value tau_grad delta_mask g g1 flags
-  obtain ⟨hy_ok, hy_r, hy_c, hy_get⟩ : IsMat y1 (clipP ε P) := by
-    refine ⟨?_, ?_, ?_, ?_⟩ <;> simp [y1, clipP]
-  clear_value y1
-  obtain rfl : n = N := by simp [N, hy_r]
-  clear_value N
-  obtain ⟨hpi_ok, hpi_r, hpi_c, hpi_get⟩ : IsRow pi (mean0 (clipP ε P)) := by
-    refine ⟨?_, ?_, ?_, ?_⟩ <;> simp [pi, mean0, hy_ok, hy_r, hy_c, hy_get]
-  clear_value pi
-  obtain ⟨hal_ok, hal_r, hal_c, hal_get⟩ : IsMat alpha (mmdAlpha ε P) := by
+  -- all `let`s are unfolded: what follows speaks about the NumPy EXPRESSIONS of the source, whatever temporaries name them
+  dsimp only
+  have hy : IsMat (Arr.clip (ofFn P) ε (1 - ε)) (clipP ε P) := by
+    refine ⟨?_, ?_, ?_, ?_⟩ <;> simp [clipP]
+  name_expr y1 := Arr.clip (ofFn P) ε (1 - ε) at hy
+  obtain ⟨hy_ok, hy_r, hy_c, hy_get⟩ := hy
+  subst hy_r
+  have hpi : IsRow (meanAxis0 y1) (mean0 (clipP ε P)) := by
+    refine ⟨?_, ?_, ?_, ?_⟩ <;> simp [mean0, hy_ok, hy_c, hy_get]
+  name_expr pi := meanAxis0 y1 at hpi
+  obtain ⟨hpi_ok, hpi_r, hpi_c, hpi_get⟩ := hpi
+  have hal : IsMat (div y1 pi) (mmdAlpha ε P) := by
     refine ⟨?_, ?_, ?_, ?_⟩ <;>
-      simp [alpha, div, mmdAlpha, hy_ok, hy_r, hy_c, hy_get, hpi_ok, hpi_r, hpi_c, hpi_get]
-  clear_value alpha
-  obtain ⟨hnk_ok, hnk_r, hnk_c, hnk_get⟩ : IsMat nk (fun i j : Fin N => κ i j / ((N : ℝ) * N)) := by
-    refine ⟨?_, ?_, ?_, ?_⟩ <;> simp [nk]
-  clear_value nk
-  obtain ⟨hga_ok, hga_r, hga_c, hga_get⟩ : IsMat gamma (mmdGamma ε P κ) := by
+      simp [div, mmdAlpha, hy_ok, hy_c, hy_get, hpi_ok, hpi_r, hpi_c, hpi_get]
+  name_expr alpha := div y1 pi at hal
+  obtain ⟨hal_ok, hal_r, hal_c, hal_get⟩ := hal
+  have hnk : IsMat (divs (ofFn κ) (nat y1.r * nat y1.r)) (fun i j : Fin y1.r => κ i j / ((y1.r : ℝ) * y1.r)) := by
+    refine ⟨?_, ?_, ?_, ?_⟩ <;> simp
+  name_expr nk := divs (ofFn κ) (nat y1.r * nat y1.r) at hnk
+  obtain ⟨hnk_ok, hnk_r, hnk_c, hnk_get⟩ := hnk
+  have hga : IsMat (matmul nk alpha) (mmdGamma ε P κ) := by
     refine ⟨?_, ?_, ?_, ?_⟩ <;>
-      simp [gamma, mmdGamma, hnk_ok, hnk_r, hnk_c, hnk_get, hal_ok, hal_r, hal_c, hal_get]
-  clear_value gamma
-  obtain ⟨hde_ok, hde_r, hde_c, hde_get⟩ : IsRow delta (mmdDeltaOva ε P κ) := by
+      simp [mmdGamma, hnk_ok, hnk_r, hnk_c, hnk_get, hal_ok, hal_r, hal_c, hal_get]
+  name_expr gamma := matmul nk alpha at hga
+  obtain ⟨hga_ok, hga_r, hga_c, hga_get⟩ := hga
+  have habc : (mul alpha gamma).ok = true ∧ (sumAxis0 (mul alpha gamma)).ok = true ∧ (sumAxis0 gamma).ok = true ∧
+      (sumAll nk).ok = true := by
+    simp [mul, hnk_ok, hal_ok, hal_r, hal_c, hga_ok, hga_r, hga_c]
+  have hde : IsRow (sqrt (maximum0 (sub (add (sumAxis0 (mul alpha gamma)) (sumAll nk)) (smul (nat 2) (sumAxis0 gamma)))))
+      (mmdDeltaOva ε P κ) := by
     refine ⟨?_, ?_, ?_, ?_⟩ <;>
-      simp [delta, a, b, c, omega, add, sub, mul, mmdDeltaOva, hnk_ok, hnk_r, hnk_c, hnk_get,
+      simp [add, sub, mul, mmdDeltaOva, hnk_ok, hnk_r, hnk_c, hnk_get,
         hal_ok, hal_r, hal_c, hal_get, hga_ok, hga_r, hga_c, hga_get]
-  have habc : omega.ok = true ∧ a.ok = true ∧ b.ok = true ∧ c.ok = true := by
-    simp [a, b, c, omega, mul, hnk_ok, hal_ok, hal_r, hal_c, hga_ok, hga_r, hga_c]
-  clear_value delta a b c omega
-  have hval_ok : value.ok = true := by
-    simp [value, hpi_ok, hpi_r, hpi_c, hde_ok, hde_r, hde_c]
-  clear_value value
-  obtain ⟨htau_ok, htau_r, htau_c, htau_get⟩ : IsMat tau_grad (fun (i : Fin N) (k : Fin K) =>
-      (∑ j, κ i j / ((N : ℝ) * N) * (mmdAlpha ε P j k - 1))
-        - (∑ i', ∑ j, κ i' j / ((N : ℝ) * N) * (mmdAlpha ε P j k - 1)) / N) := by
+  name_expr delta := sqrt (maximum0 (sub (add (sumAxis0 (mul alpha gamma)) (sumAll nk)) (smul (nat 2) (sumAxis0 gamma)))) at hde
+  obtain ⟨hde_ok, hde_r, hde_c, hde_get⟩ := hde
+  have hval_ok : (squeeze0 (matvec pi delta)).ok = true := by
+    simp [hpi_ok, hpi_r, hpi_c, hde_ok, hde_r, hde_c]
+  have htau : IsMat (matmul (matmul (subs (eye y1.r) (1 / nat y1.r)) nk) (subs alpha 1)) (fun (i : Fin y1.r) (k : Fin K) =>
+      (∑ j, κ i j / ((y1.r : ℝ) * y1.r) * (mmdAlpha ε P j k - 1))
+        - (∑ i', ∑ j, κ i' j / ((y1.r : ℝ) * y1.r) * (mmdAlpha ε P j k - 1)) / y1.r) := by
     refine ⟨?_, ?_, ?_, ?_⟩
-    · simp [tau_grad, hnk_ok, hnk_r, hnk_c, hal_ok, hal_r, hal_c]
-    · simp [tau_grad, hnk_ok, hnk_r, hnk_c, hal_ok, hal_r, hal_c]
-    · simp [tau_grad, hnk_ok, hnk_r, hnk_c, hal_ok, hal_r, hal_c]
+    · simp [hnk_ok, hnk_r, hnk_c, hal_ok, hal_r, hal_c]
+    · simp [hnk_ok, hnk_r, hnk_c, hal_ok, hal_r, hal_c]
+    · simp [hnk_ok, hnk_r, hnk_c, hal_ok, hal_r, hal_c]
     · intro i k
-      simp [tau_grad, hnk_ok, hnk_r, hnk_c, hnk_get, hal_ok, hal_r, hal_c, hal_get]
+      simp [hnk_ok, hnk_r, hnk_c, hnk_get, hal_ok, hal_r, hal_c, hal_get]
       refine (centering_matmul _ _ _ i).trans ?_
       ring
-  clear_value tau_grad
+  name_expr tau_grad := matmul (matmul (subs (eye y1.r) (1 / nat y1.r)) nk) (subs alpha 1) at htau
+  obtain ⟨htau_ok, htau_r, htau_c, htau_get⟩ := htau
   apply eqv_ofFn
-  · simp [flags, g1, g, delta_mask, clip_mask, add, mul, div, hy_ok, hnk_ok, hpi_ok, hal_ok, hga_ok, habc, hde_ok,
-      hde_r, hde_c, hval_ok, htau_ok, htau_r, htau_c, Nat.pos_iff_ne_zero.mp hn]
-  · simp [g1, g, delta_mask, clip_mask, add, mul, div, hde_r, hde_c, htau_r, htau_c]
-  · simp [g1, g, delta_mask, clip_mask, add, mul, div, hde_r, hde_c, htau_r, htau_c]
+  · simp [add, mul, div, hy_ok, hnk_ok, hnk_r, hnk_c, hpi_ok, hpi_r, hpi_c, hal_ok, hal_r, hal_c, hga_ok, hga_r, hga_c, habc,
+      hde_ok, hde_r, hde_c, hval_ok, htau_ok, htau_r, htau_c, Nat.pos_iff_ne_zero.mp hn]
+  · simp [add, mul, div, hde_r, hde_c, htau_r, htau_c]
+  · simp [add, mul, div, hde_r, hde_c, htau_r, htau_c]
   · intro i k
-    simp [g1, g, delta_mask, clip_mask, add, mul, div, hde_r, hde_c, hde_get, htau_r, htau_c, htau_get, mmdGrad,
+    simp [add, mul, div, hde_r, hde_c, hde_get, htau_r, htau_c, htau_get, mmdGrad,
       clipMask, meanV]
     split_ifs with h <;> simp [h, ofBool]
 
@@ -334,66 +345,115 @@ theorem mmd_ova_grad_snd_eq (hn : 0 < n) (ε : ℝ) (P : Fin n → Fin K → ℝ
 theorem mmd_ovo_grad_snd_eq (ε : ℝ) (P : Fin n → Fin K → ℝ) (κ : Fin n → Fin n → ℝ) :
     Eqv (Gen.Geminis.mmd_ovo_grad ε (ofFn P) (ofFn κ)).2 (ofFn (mmdGrad ε true P κ)) := by
   unfold Gen.Geminis.mmd_ovo_grad
-  extract_lets clip_mask y1 N nk pi alpha gamma omega A delta value Lambda Lambda1 Lambda2 g g1 g2 g3 g4 g5 g6 flags
-  obtain ⟨hy_ok, hy_r, hy_c, hy_get⟩ : IsMat y1 (clipP ε P) := by
-    refine ⟨?_, ?_, ?_, ?_⟩ <;> simp [y1, clipP]
-  clear_value y1
-  obtain rfl : n = N := by simp [N, hy_r]
-  clear_value N
-  obtain ⟨hpi_ok, hpi_r, hpi_c, hpi_get⟩ : IsRow pi (mean0 (clipP ε P)) := by
-    refine ⟨?_, ?_, ?_, ?_⟩ <;> simp [pi, mean0, hy_ok, hy_r, hy_c, hy_get]
-  clear_value pi
-  obtain ⟨hal_ok, hal_r, hal_c, hal_get⟩ : IsMat alpha (mmdAlpha ε P) := by
+  -- all `let`s are unfolded: what follows speaks about the NumPy EXPRESSIONS of the source, whatever temporaries name them
+  dsimp only
+  have hy : IsMat (Arr.clip (ofFn P) ε (1 - ε)) (clipP ε P) := by
+    refine ⟨?_, ?_, ?_, ?_⟩ <;> simp [clipP]
+  name_expr y1 := Arr.clip (ofFn P) ε (1 - ε) at hy
+  obtain ⟨hy_ok, hy_r, hy_c, hy_get⟩ := hy
+  subst hy_r
+  have hpi : IsRow (meanAxis0 y1) (mean0 (clipP ε P)) := by
+    refine ⟨?_, ?_, ?_, ?_⟩ <;> simp [mean0, hy_ok, hy_c, hy_get]
+  name_expr pi := meanAxis0 y1 at hpi
+  obtain ⟨hpi_ok, hpi_r, hpi_c, hpi_get⟩ := hpi
+  have hal : IsMat (div y1 pi) (mmdAlpha ε P) := by
     refine ⟨?_, ?_, ?_, ?_⟩ <;>
-      simp [alpha, div, mmdAlpha, hy_ok, hy_r, hy_c, hy_get, hpi_ok, hpi_r, hpi_c, hpi_get]
-  clear_value alpha
-  obtain ⟨hga_ok, hga_r, hga_c, hga_get⟩ : IsMat gamma (mmdGamma ε P κ) := by
-    refine ⟨?_, ?_, ?_, ?_⟩ <;> simp [gamma, nk, mmdGamma, hal_ok, hal_r, hal_c, hal_get]
-  have hnk_ok : nk.ok = true := by simp [nk]
-  clear_value gamma nk
-  obtain ⟨hom_ok, hom_r, hom_c, hom_get⟩ :
-      IsMat omega (fun a b : Fin K => ∑ i, mmdAlpha ε P i a * mmdGamma ε P κ i b) := by
+      simp [div, mmdAlpha, hy_ok, hy_c, hy_get, hpi_ok, hpi_r, hpi_c, hpi_get]
+  name_expr alpha := div y1 pi at hal
+  obtain ⟨hal_ok, hal_r, hal_c, hal_get⟩ := hal
+  have hnk_ok : (divs (ofFn κ) (nat y1.r * nat y1.r)).ok = true := by simp
+  have hga : IsMat (matmul (divs (ofFn κ) (nat y1.r * nat y1.r)) alpha) (mmdGamma ε P κ) := by
+    refine ⟨?_, ?_, ?_, ?_⟩ <;> simp [mmdGamma, hal_ok, hal_r, hal_c, hal_get]
+  name_expr gamma := matmul (divs (ofFn κ) (nat y1.r * nat y1.r)) alpha at hga
+  obtain ⟨hga_ok, hga_r, hga_c, hga_get⟩ := hga
+  have hom : IsMat (matmul (transpose alpha) gamma) (fun a b : Fin K => ∑ i, mmdAlpha ε P i a * mmdGamma ε P κ i b) := by
     refine ⟨?_, ?_, ?_, ?_⟩ <;>
-      simp [omega, hal_ok, hal_r, hal_c, hal_get, hga_ok, hga_r, hga_c, hga_get]
-  clear_value omega
-  obtain ⟨hA_ok, hA_r, hA_c, hA_get⟩ : IsRow A (fun b : Fin K => ∑ i, mmdAlpha ε P i b * mmdGamma ε P κ i b) := by
-    refine ⟨?_, ?_, ?_, ?_⟩ <;> simp [A, hom_ok, hom_r, hom_c, hom_get]
-  clear_value A
-  obtain ⟨hde_ok, hde_r, hde_c, hde_get⟩ : IsMat delta (mmdDeltaOvo ε P κ) := by
+      simp [hal_ok, hal_r, hal_c, hal_get, hga_ok, hga_r, hga_c, hga_get]
+  name_expr omega := matmul (transpose alpha) gamma at hom
+  obtain ⟨hom_ok, hom_r, hom_c, hom_get⟩ := hom
+  have hA : IsRow (reshapeRow (diagVec omega)) (fun b : Fin K => ∑ i, mmdAlpha ε P i b * mmdGamma ε P κ i b) := by
+    refine ⟨?_, ?_, ?_, ?_⟩ <;> simp [hom_ok, hom_r, hom_c, hom_get]
+  name_expr A := reshapeRow (diagVec omega) at hA
+  obtain ⟨hA_ok, hA_r, hA_c, hA_get⟩ := hA
+  have hde : IsMat (sqrt (maximum0 (add (add (smul (-(nat 2)) omega) A) (transpose A)))) (mmdDeltaOvo ε P κ) := by
     refine ⟨?_, ?_, ?_, ?_⟩ <;>
-      simp [delta, add, mmdDeltaOvo, hom_ok, hom_r, hom_c, hom_get, hA_ok, hA_r, hA_c, hA_get]
-  clear_value delta
-  obtain ⟨hL_ok, hL_r, hL_c, hL_get⟩ : IsMat Lambda2 (fun a b : Fin K => if a = b then 0 else
-      if mmdDeltaOvo ε P κ a b = 0 then 0 else
-        mean0 (clipP ε P) a * mean0 (clipP ε P) b / mmdDeltaOvo ε P κ a b) := by
+      simp [add, mmdDeltaOvo, hom_ok, hom_r, hom_c, hom_get, hA_ok, hA_r, hA_c, hA_get]
+  name_expr delta := sqrt (maximum0 (add (add (smul (-(nat 2)) omega) A) (transpose A))) at hde
+  obtain ⟨hde_ok, hde_r, hde_c, hde_get⟩ := hde
+  have hval_ok : (squeeze0 (matmul (matmul pi delta) (transpose pi))).ok = true := by
+    simp [hpi_ok, hpi_r, hpi_c, hde_ok, hde_r, hde_c]
+  -- Lambda = (pi.T @ pi) / (delta + np.eye(len(delta)))
+  have hLam : IsMat (div (matmul (transpose pi) pi) (add delta (eye delta.r))) (fun a b : Fin K =>
+      mean0 (clipP ε P) a * mean0 (clipP ε P) b / (mmdDeltaOvo ε P κ a b + if a = b then 1 else 0)) := by
     refine ⟨?_, ?_, ?_, ?_⟩
-    · simp [Lambda2, Lambda1, Lambda, add, sub, div, hpi_ok, hpi_r, hpi_c, hde_ok, hde_r, hde_c]
-    · simp [Lambda2, Lambda1, Lambda, add, sub, div, hpi_ok, hpi_r, hpi_c, hde_ok, hde_r, hde_c]
-    · simp [Lambda2, Lambda1, Lambda, add, sub, div, hpi_ok, hpi_r, hpi_c, hde_ok, hde_r, hde_c]
+    · simp [add, div, hpi_ok, hpi_r, hpi_c, hde_ok, hde_r, hde_c]
+    · simp [add, div, hpi_ok, hpi_r, hpi_c, hde_ok, hde_r, hde_c]
+    · simp [add, div, hpi_ok, hpi_r, hpi_c, hde_ok, hde_r, hde_c]
     · intro a b
-      simp [Lambda2, Lambda1, Lambda, add, sub, div, hpi_ok, hpi_r, hpi_c, hpi_get, hde_ok, hde_r, hde_c, hde_get]
+      have hv : ((a : ℕ) = b) ↔ a = b := Fin.val_inj
+      simp [add, div, hpi_ok, hpi_r, hpi_c, hpi_get, hde_ok, hde_r, hde_c, hde_get, hv]
+  name_expr Lambda := div (matmul (transpose pi) pi) (add delta (eye delta.r)) at hLam
+  obtain ⟨hLam_ok, hLam_r, hLam_c, hLam_get⟩ := hLam
+  -- its diagonal removed: `Lambda -= np.diag(np.diag(Lambda))` (`x - x` on the diagonal) or `np.fill_diagonal(Lambda, 0)`
+  have hL1 : IsMat (inPlace Lambda (sub Lambda (diagMat (diagVec Lambda)))) (fun a b : Fin K => if a = b then 0 else
+      mean0 (clipP ε P) a * mean0 (clipP ε P) b / (mmdDeltaOvo ε P κ a b + if a = b then 1 else 0)) := by
+    refine ⟨?_, ?_, ?_, ?_⟩
+    · simp [sub, hLam_ok, hLam_r, hLam_c]
+    · simp [sub, hLam_ok, hLam_r, hLam_c]
+    · simp [sub, hLam_ok, hLam_r, hLam_c]
+    · intro a b
+      simp [sub, hLam_ok, hLam_r, hLam_c, hLam_get]
       by_cases hab : a = b
-      · subst hab; simp
+      · subst hab; simp [hLam_get]
       · have hv : (a : ℕ) ≠ b := fun h => hab (Fin.ext h)
-        simp [hab, hv]
-  have hLam_ok : Lambda.ok = true ∧ Lambda1.ok = true := by
-    constructor <;> simp [Lambda1, Lambda, add, sub, div, hpi_ok, hpi_r, hpi_c, hde_ok, hde_r, hde_c]
-  clear_value Lambda2 Lambda1 Lambda
-  have hval_ok : value.ok = true := by
-    simp [value, hpi_ok, hpi_r, hpi_c, hde_ok, hde_r, hde_c]
-  clear_value value
+        simp [hab, hv, hLam_get]
+  have hL1' : IsMat (fillDiagonal Lambda 0) (fun a b : Fin K => if a = b then 0 else
+      mean0 (clipP ε P) a * mean0 (clipP ε P) b / (mmdDeltaOvo ε P κ a b + if a = b then 1 else 0)) := by
+    refine ⟨?_, ?_, ?_, ?_⟩
+    · simp [hLam_ok]
+    · simp [hLam_r]
+    · simp [hLam_c]
+    · intro a b
+      have hv : ((a : ℕ) = b) ↔ a = b := Fin.val_inj
+      simp [hLam_get, hv]
+  name_expr Lambda1 := inPlace Lambda (sub Lambda (diagMat (diagVec Lambda))) at hL1
+  name_expr Lambda1' := fillDiagonal Lambda 0 at hL1'
+  -- `Lambda[delta == 0] = 0`
+  have hL2 : ∀ L1 : Arr ℝ, IsMat L1 (fun a b : Fin K => if a = b then 0 else
+        mean0 (clipP ε P) a * mean0 (clipP ε P) b / (mmdDeltaOvo ε P κ a b + if a = b then 1 else 0)) →
+      IsMat (setWhere L1 (eqS delta 0) 0) (fun a b : Fin K => if a = b then 0 else
+        if mmdDeltaOvo ε P κ a b = 0 then 0 else
+          mean0 (clipP ε P) a * mean0 (clipP ε P) b / mmdDeltaOvo ε P κ a b) := by
+    rintro L1 ⟨h1_ok, h1_r, h1_c, h1_get⟩
+    refine ⟨?_, ?_, ?_, ?_⟩
+    · simp [h1_ok, h1_r, h1_c, hde_ok, hde_r, hde_c]
+    · simp [h1_r]
+    · simp [h1_c]
+    · intro a b
+      simp [h1_get, hde_get]
+      by_cases hab : a = b
+      · simp [hab]
+      · simp [hab]
+  have hL := hL2 _ hL1
+  have hL' := hL2 _ hL1'
+  name_expr Lambda2 := setWhere Lambda1 (eqS delta 0) 0 at hL
+  name_expr Lambda2' := setWhere Lambda1' (eqS delta 0) 0 at hL'
+  obtain ⟨hL1_ok, -, -, -⟩ := hL1
+  obtain ⟨hL1_ok', -, -, -⟩ := hL1'
+  obtain ⟨hL_ok, hL_r, hL_c, hL_get⟩ := hL
+  obtain ⟨hL_ok', hL_r', hL_c', hL_get'⟩ := hL'
   apply eqv_ofFn
-  · simp [flags, g6, g5, g4, g3, g2, g1, g, clip_mask, add, sub, mul, div, hy_ok, hnk_ok, hpi_ok, hpi_r, hpi_c,
+  · simp [add, sub, mul, div, hy_ok, hnk_ok, hpi_ok, hpi_r, hpi_c,
       hal_ok, hal_r, hal_c, hga_ok, hga_r, hga_c, hom_ok, hA_ok, hA_r, hA_c, hde_ok, hde_r, hde_c, hL_ok, hL_r, hL_c,
-      hLam_ok, hval_ok]
-  · simp [g6, g5, g4, g3, g2, g1, g, clip_mask, add, sub, mul, div, hpi_r, hpi_c, hal_r, hal_c, hga_r, hga_c,
-      hA_r, hA_c, hde_r, hde_c, hL_r, hL_c]
-  · simp [g6, g5, g4, g3, g2, g1, g, clip_mask, add, sub, mul, div, hpi_r, hpi_c, hal_r, hal_c, hga_r, hga_c,
-      hA_r, hA_c, hde_r, hde_c, hL_r, hL_c]
+      hL_ok', hL_r', hL_c', hLam_ok, hL1_ok, hL1_ok', hval_ok]
+  · simp [add, sub, mul, div, hpi_r, hpi_c, hal_r, hal_c, hga_r, hga_c,
+      hA_r, hA_c, hde_r, hde_c, hL_r, hL_c, hL_r', hL_c']
+  · simp [add, sub, mul, div, hpi_r, hpi_c, hal_r, hal_c, hga_r, hga_c,
+      hA_r, hA_c, hde_r, hde_c, hL_r, hL_c, hL_r', hL_c']
   · intro i k
-    simp [g6, g5, g4, g3, g2, g1, g, clip_mask, add, sub, mul, div, hpi_r, hpi_c, hal_r, hal_c, hga_r, hga_c,
-      hA_r, hA_c, hde_r, hde_c, hL_r, hL_c, hpi_get, hal_get, hga_get, hA_get, hde_get, hL_get, mmdGrad, clipMask,
-      meanV]
+    simp [add, sub, mul, div, hpi_r, hpi_c, hal_r, hal_c, hga_r, hga_c,
+      hA_r, hA_c, hde_r, hde_c, hL_r, hL_c, hL_r', hL_c', hpi_get, hal_get, hga_get, hA_get, hde_get, hL_get, hL_get',
+      mmdGrad, clipMask, meanV]
 
 end real
 
